@@ -445,19 +445,19 @@ fn windows(now: u32) -> [(u32, u32); 3] {
     ]
 }
 
-fn build_zone(apex: &str, content: Vec<LRec>, key: Option<(Arc<SKey>, Vec<u8>)>, denial: Denial, now: u32) -> Zone {
+fn build_zone(apex: &str, content: Vec<LRec>, skey: Option<(Arc<SKey>, Vec<u8>)>, denial: Denial, now: u32) -> Zone {
     let apexl = nm(apex);
     let mut z = Zone {
         apex: apexl.clone(),
-        secure: key.is_some(),
+        secure: skey.is_some(),
         denial: denial.clone(),
         sets: BTreeMap::new(),
         sigs: BTreeMap::new(),
         names: BTreeSet::new(),
         ents: BTreeSet::new(),
         n3: vec![],
-        key: key.as_ref().map(|k| k.0.clone()),
-        dnskey: key.as_ref().map(|k| k.1.clone()).unwrap_or_default(),
+        key: skey.as_ref().map(|k| k.0.clone()),
+        dnskey: skey.as_ref().map(|k| k.1.clone()).unwrap_or_default(),
     };
     let add_set = |z: &mut Zone, r: &LRec| {
         let k = key(&from_lname(r.owner()));
@@ -468,7 +468,7 @@ fn build_zone(apex: &str, content: Vec<LRec>, key: Option<(Arc<SKey>, Vec<u8>)>,
             e.1.sort();
         }
     };
-    match &key {
+    match &skey {
         None => {
             for r in &content {
                 add_set(&mut z, r);
@@ -999,4 +999,559 @@ impl Hier {
     }
 }
 
-include!("c14_part2.rs");
+// ------------------------------------------------------------ faults (types)
+
+#[derive(Clone, Debug, Serialize, Deserialize, PartialEq, Eq, Hash)]
+enum Target {
+    Main,
+    /// upstream response for (qname as shown, qtype)
+    Up(String, u16),
+}
+
+#[derive(Clone, Debug, Serialize, Deserialize, PartialEq, Eq, Hash)]
+enum Op {
+    /// drop the records of an RRset (and, if with_sigs, its RRSIGs)
+    DropSet { ids: Vec<u16>, with_sigs: bool },
+    /// duplicate one record
+    Dup { id: u16 },
+    /// TTL of the listed records: mode 0 = original + 100000, 1 = 0, 2 = 0x7fffffff
+    Ttl { ids: Vec<u16>, mode: u8 },
+    /// flip one bit of the RDATA: pos 0 first octet, 1 middle, 2 last
+    FlipRdata { id: u16, pos: u8 },
+    /// xor the first octet of the first owner label of the listed records
+    FlipOwner { ids: Vec<u16>, mask: u8 },
+    DropSig { id: u16 },
+    /// replace the RRSIG RDATA by an authentic one of (zone, owner, covered);
+    /// patch: 0 none, 1 type covered rewritten to the expected one
+    ReplaceSig { id: u16, zone: usize, owner: String, covered: u16, patch: u8 },
+    /// flip the lowest bit of the last octet of field: 0 type covered, 1 algorithm, 2 labels,
+    /// 3 original ttl, 4 expiration, 5 inception, 6 key tag, 7 signer name (first octet of first label),
+    /// 8 signature first octet, 9 signature last octet; 10 labels - 1; 11 signer := parent zone; 12 signer := child zone
+    SigField { id: u16, field: u8 },
+    /// replace by the RRSIG the real signer made for window 1 (expired) or 2 (not yet valid)
+    Window { id: u16, w: u8 },
+    /// n corrupted copies of the RRSIG in front of the good one
+    ManyBad { id: u16, n: u16 },
+    /// DNSKEY: 0 empty key, 1 half key, 2 key minus last octet, 3 garbage of same length, 4 ZONE flag cleared,
+    /// 5 algorithm 1 (RSAMD5), 6 algorithm 15, 7 protocol 2, 8 one-octet key, 9 extra garbage DNSKEY added
+    Key { id: u16, how: u8 },
+    /// DS: 0 digest last bit, 1 digest truncated to 16, 2 digest empty, 3 digest type 1, 4 digest type 99,
+    /// 5 algorithm 15, 6 key tag + 1, 7 extra DS (alg 15) added
+    Ds { id: u16, how: u8 },
+    /// replace an NSEC/NSEC3 RRset and its RRSIGs by another authentic, validly signed one
+    SwapDenial { ids: Vec<u16>, zone: usize, owner: String },
+    /// NSEC3 owner hash label: 0 non-base32hex character, 1 31 characters, 2 33 characters, 3 16 characters,
+    /// 4 non-UTF-8 octet, 5 single character, 6 upper case; resign: re-signed with the zone's real key
+    N3Owner { ids: Vec<u16>, variant: u8, resign: bool },
+    /// NSEC3 parameters altered and re-signed with the zone's real key: 0 iterations 101, 1 iterations 501,
+    /// 2 hash algorithm 2, 3 opt-out flag set, 4 next hashed owner of 19 octets
+    N3Param { ids: Vec<u16>, variant: u8 },
+    /// header count: which 0 qd 1 an 2 ns 3 ar; mode 0 +1, 1 -1, 2 = 65535, 3 = 0, 4 = 2
+    Counts { which: u8, mode: u8 },
+    Rcode { to: u8 },
+    /// cut octets from the end: mode 0 one octet, 1 half of the message, 2 down to 11 octets
+    Cut { mode: u8 },
+    /// the upstream request fails
+    UpErr,
+    /// all records removed
+    Empty,
+    /// an unsigned RRset owned below the insecure delegation is added to section s
+    InjectInsecure { s: u8 },
+    /// answer RRset forged and signed with the attacker's tag-colliding key (main) /
+    /// DNSKEY RRset of the child replaced by the attacker's self-signed key (upstream)
+    Forge,
+    /// answer RRset forged and signed with the real key of a zone that is not an ancestor of the owner
+    OutOfBailiwick,
+}
+
+impl Op {
+    fn kind(&self) -> String {
+        match self {
+            Op::DropSet { with_sigs, .. } => if *with_sigs { "drop-rrset-and-rrsigs".into() } else { "drop-rrset".into() },
+            Op::Dup { .. } => "duplicate-rr".into(),
+            Op::Ttl { mode, .. } => format!("ttl-{}", ["raised", "zero", "max"][*mode as usize]),
+            Op::FlipRdata { .. } => "flip-rdata-bit".into(),
+            Op::FlipOwner { mask, .. } => if *mask == 0x20 { "owner-case".into() } else { "flip-owner-bit".into() },
+            Op::DropSig { .. } => "drop-rrsig".into(),
+            Op::ReplaceSig { patch, .. } => format!("replace-rrsig-p{patch}"),
+            Op::SigField { field, .. } => format!("rrsig-field-{field}"),
+            Op::Window { w, .. } => if *w == 1 { "expired".into() } else { "not-yet-valid".into() },
+            Op::ManyBad { .. } => "many-bad-rrsigs".into(),
+            Op::Key { how, .. } => format!("dnskey-{how}"),
+            Op::Ds { how, .. } => format!("ds-{how}"),
+            Op::SwapDenial { .. } => "swap-denial".into(),
+            Op::N3Owner { variant, resign, .. } => format!("nsec3-owner-{variant}{}", if *resign { "-resigned" } else { "" }),
+            Op::N3Param { variant, .. } => format!("nsec3-param-{variant}-resigned"),
+            Op::Counts { .. } => "header-counts".into(),
+            Op::Rcode { .. } => "rcode".into(),
+            Op::Cut { .. } => "truncate".into(),
+            Op::UpErr => "upstream-error".into(),
+            Op::Empty => "empty-response".into(),
+            Op::InjectInsecure { .. } => "inject-insecure-rrset".into(),
+            Op::Forge => "forged-key-same-tag".into(),
+            Op::OutOfBailiwick => "signer-not-ancestor".into(),
+        }
+    }
+    /// Faults that need the zone's real private key (hostile zone owner):
+    /// the data they produce is "authentic" by definition, so only the
+    /// no-panic / termination part of the property is judged.
+    fn owner_adversary(&self) -> bool {
+        matches!(self, Op::N3Owner { resign: true, .. } | Op::N3Param { .. })
+    }
+}
+
+#[derive(Clone, Debug, Serialize, Deserialize, PartialEq, Eq, Hash)]
+struct Fault {
+    target: Target,
+    op: Op,
+}
+
+// ------------------------------------------------------------ execution
+
+fn block_on<F: Future>(f: F) -> F::Output {
+    let waker = futures_util::task::noop_waker();
+    let mut cx = Context::from_waker(&waker);
+    let mut f = std::pin::pin!(f);
+    loop {
+        if let Poll::Ready(v) = f.as_mut().poll(&mut cx) {
+            return v;
+        }
+        std::thread::yield_now();
+    }
+}
+
+#[derive(Debug)]
+struct Ready(Option<Result<Message<Bytes>, ReqError>>);
+
+impl GetResponse for Ready {
+    fn get_response(&mut self) -> Pin<Box<dyn Future<Output = Result<Message<Bytes>, ReqError>> + Send + Sync + '_>> {
+        let r = self.0.take().unwrap_or(Err(ReqError::ConnectionClosed));
+        Box::pin(std::future::ready(r))
+    }
+}
+
+#[derive(Default)]
+struct UpState {
+    calls: AtomicUsize,
+    over_budget: AtomicBool,
+    asked: Mutex<Vec<(Labels, u16)>>,
+    /// number of delivered messages that differ from the authentic ones
+    altered: AtomicUsize,
+}
+
+#[derive(Clone)]
+struct Upstream {
+    h: Arc<Hier>,
+    faults: Arc<Vec<Fault>>,
+    st: Arc<UpState>,
+    /// the wrapper used as the transport of net::client::validator::Connection: answers the main query
+    main: bool,
+}
+
+impl Upstream {
+    fn respond(&self, qname: &Labels, qtype: u16) -> Result<Message<Bytes>, ReqError> {
+        let mut resp = self.h.answer(qname, qtype);
+        let clean = resp.encode();
+        let tgt = if self.main { Target::Main } else { Target::Up(show(qname), qtype) };
+        for f in self.faults.iter() {
+            if f.target == tgt {
+                apply_op(&self.h, &f.op, &mut resp, self.main);
+            }
+        }
+        if resp.up_err {
+            self.st.altered.fetch_add(1, AO::Relaxed);
+            return Err(ReqError::ConnectionClosed);
+        }
+        let bytes = resp.encode();
+        if bytes != clean {
+            self.st.altered.fetch_add(1, AO::Relaxed);
+        }
+        Message::from_octets(Bytes::from(bytes)).map_err(|_| ReqError::ShortMessage)
+    }
+}
+
+impl SendRequest<RequestMessage<Vec<u8>>> for Upstream {
+    fn send_request(&self, req: RequestMessage<Vec<u8>>) -> Box<dyn GetResponse + Send + Sync> {
+        let n = self.st.calls.fetch_add(1, AO::SeqCst) + 1;
+        if n > BUDGET {
+            self.st.over_budget.store(true, AO::SeqCst);
+            return Box::new(Ready(Some(Err(ReqError::ConnectionClosed))));
+        }
+        let q = req.to_vec().ok().and_then(|v| mc::wire::read_message(&v).ok()).and_then(|m| m.questions.first().cloned());
+        let Some(q) = q else {
+            return Box::new(Ready(Some(Err(ReqError::FormError))));
+        };
+        if !self.main {
+            self.st.asked.lock().unwrap().push((q.qname.clone(), q.qtype));
+        }
+        Box::new(Ready(Some(self.respond(&q.qname, q.qtype))))
+    }
+}
+
+#[derive(Clone, Debug, PartialEq, Eq)]
+enum Verdict {
+    State(String),
+    Err(String),
+    Panic(String),
+    /// the (faulted) main answer is shorter than a DNS header: nothing to hand to validate_msg
+    NoMessage,
+}
+
+impl Verdict {
+    fn short(&self) -> String {
+        match self {
+            Verdict::State(s) => s.clone(),
+            Verdict::Err(_) => "Err".into(),
+            Verdict::Panic(_) => "Panic".into(),
+            Verdict::NoMessage => "NoMessage".into(),
+        }
+    }
+    fn secure(&self) -> bool {
+        matches!(self, Verdict::State(s) if s == "Secure")
+    }
+}
+
+struct Exec {
+    verdict: Verdict,
+    ede: String,
+    /// the message after validation (validate_msg may rewrite it)
+    out: Vec<u8>,
+    /// the message handed in
+    input: Vec<u8>,
+    calls: usize,
+    over_budget: bool,
+    asked: Vec<(Labels, u16)>,
+    altered: usize,
+}
+
+#[derive(Clone, Debug)]
+struct Query {
+    name: Labels,
+    qtype: u16,
+}
+
+fn state_name(s: ValidationState) -> &'static str {
+    match s {
+        ValidationState::Secure => "Secure",
+        ValidationState::Insecure => "Insecure",
+        ValidationState::Bogus => "Bogus",
+        ValidationState::Indeterminate => "Indeterminate",
+    }
+}
+
+/// One execution through `ValidationContext::validate_msg`.
+fn run_direct(h: &Arc<Hier>, q: &Query, faults: &Arc<Vec<Fault>>) -> Exec {
+    let st = Arc::new(UpState::default());
+    let up = Upstream { h: h.clone(), faults: faults.clone(), st: st.clone(), main: false };
+    let mainup = Upstream { h: h.clone(), faults: faults.clone(), st: st.clone(), main: true };
+    let mut ex = Exec { verdict: Verdict::NoMessage, ede: String::new(), out: vec![], input: vec![], calls: 0, over_budget: false, asked: vec![], altered: 0 };
+    let main = mainup.respond(&q.name, q.qtype);
+    let main = match main {
+        Ok(m) => m,
+        Err(_) => {
+            ex.altered = st.altered.load(AO::Relaxed);
+            return ex;
+        }
+    };
+    ex.input = main.as_slice().to_vec();
+    let mut msg = Message::from_octets(ex.input.clone()).expect("checked length");
+    let ta = TrustAnchors::from_u8(h.ta_text.as_bytes()).expect("trust anchor");
+    let r = guard(|| {
+        let vc = ValidationContext::new(ta, up);
+        block_on(async { vc.validate_msg::<Vec<u8>, Vec<u8>>(&mut msg).await })
+    });
+    ex.verdict = match r {
+        Ok(Ok((s, ede))) => {
+            ex.ede = ede.map(|e| format!("{e:?}")).unwrap_or_default();
+            Verdict::State(state_name(s).into())
+        }
+        Ok(Err(e)) => Verdict::Err(format!("{e}")),
+        Err(p) => Verdict::Panic(p),
+    };
+    ex.out = msg.as_slice().to_vec();
+    ex.calls = st.calls.load(AO::SeqCst);
+    ex.over_budget = st.over_budget.load(AO::SeqCst);
+    ex.asked = st.asked.lock().unwrap().clone();
+    ex.altered = st.altered.load(AO::Relaxed);
+    ex
+}
+
+/// One execution through `net::client::validator::Connection` (AD bit /
+/// SERVFAIL are the observations).
+fn run_conn(h: &Arc<Hier>, q: &Query, faults: &Arc<Vec<Fault>>) -> Exec {
+    let st = Arc::new(UpState::default());
+    let up = Upstream { h: h.clone(), faults: faults.clone(), st: st.clone(), main: false };
+    let mainup = Upstream { h: h.clone(), faults: faults.clone(), st: st.clone(), main: true };
+    let mut ex = Exec { verdict: Verdict::NoMessage, ede: String::new(), out: vec![], input: vec![], calls: 0, over_budget: false, asked: vec![], altered: 0 };
+    let mut qr = Resp::new(&q.name, q.qtype);
+    qr.rcode = 0;
+    let mut qb = qr.encode();
+    qb[2] = 0x01; // RD only, QR clear
+    qb[3] = 0x00;
+    let ta = TrustAnchors::from_u8(h.ta_text.as_bytes()).expect("trust anchor");
+    let r = guard(|| {
+        let vc = Arc::new(ValidationContext::new(ta, up));
+        let conn = cval::Connection::<Upstream, Vec<u8>, Upstream>::new(mainup, vc);
+        let mut req = RequestMessage::new(Message::from_octets(qb).expect("query")).expect("request");
+        req.set_dnssec_ok(true);
+        let mut g = conn.send_request(req);
+        block_on(async { g.get_response().await })
+    });
+    ex.verdict = match r {
+        Ok(Ok(m)) => {
+            ex.out = m.as_slice().to_vec();
+            let ad = m.header().ad();
+            let rc = m.header().rcode().to_int();
+            if ad {
+                Verdict::State("Secure".into())
+            } else if rc == 2 {
+                Verdict::State("Bogus".into())
+            } else {
+                Verdict::State("Insecure".into())
+            }
+        }
+        Ok(Err(e)) => Verdict::Err(format!("{e}")),
+        Err(p) => Verdict::Panic(p),
+    };
+    ex.calls = st.calls.load(AO::SeqCst);
+    ex.over_budget = st.over_budget.load(AO::SeqCst);
+    ex.asked = st.asked.lock().unwrap().clone();
+    ex.altered = st.altered.load(AO::Relaxed);
+    ex
+}
+
+// ------------------------------------------------------------ oracle
+
+struct Parsed {
+    rcode: u8,
+    qname: Labels,
+    qtype: u16,
+    /// per section: (owner, type) -> canonical RDATAs, in order of first appearance
+    sets: [Vec<((Labels, u16), Vec<Vec<u8>>, u32)>; 2],
+}
+
+/// RDATA with embedded compressible names expanded and lowercased.
+fn canon_rdata(msg: &[u8], t: u16, pos: usize, rd: &[u8]) -> Option<Vec<u8>> {
+    let mut p = vec![];
+    match t {
+        T_NS | T_CNAME | T_PTR => {
+            let (n, _) = read_name(msg, pos, &mut p).ok()?;
+            Some(lower_wire(&n))
+        }
+        T_MX => {
+            let (n, _) = read_name(msg, pos + 2, &mut p).ok()?;
+            let mut v = rd.get(0..2)?.to_vec();
+            v.extend(lower_wire(&n));
+            Some(v)
+        }
+        T_SOA => {
+            let (a, p1) = read_name(msg, pos, &mut p).ok()?;
+            let (b, p2) = read_name(msg, p1, &mut p).ok()?;
+            let mut v = lower_wire(&a);
+            v.extend(lower_wire(&b));
+            v.extend_from_slice(msg.get(p2..p2 + 20)?);
+            Some(v)
+        }
+        _ => Some(rd.to_vec()),
+    }
+}
+
+/// Lenient reader: question, answer and authority as the counts say.
+fn parse_lenient(msg: &[u8]) -> Option<Parsed> {
+    if msg.len() < 12 {
+        return None;
+    }
+    let rcode = msg[3] & 0xF;
+    let qd = u16_at(msg, 4).ok()?;
+    let an = u16_at(msg, 6).ok()?;
+    let ns = u16_at(msg, 8).ok()?;
+    let mut pos = 12;
+    let mut ptrs = vec![];
+    let mut qname = vec![];
+    let mut qtype = 0;
+    for i in 0..qd {
+        let (n, p) = read_name(msg, pos, &mut ptrs).ok()?;
+        let t = u16_at(msg, p).ok()?;
+        u16_at(msg, p + 2).ok()?;
+        pos = p + 4;
+        if i == 0 {
+            qname = n;
+            qtype = t;
+        }
+    }
+    let mut sets: [Vec<((Labels, u16), Vec<Vec<u8>>, u32)>; 2] = Default::default();
+    for (s, cnt) in [(0usize, an), (1usize, ns)] {
+        for _ in 0..cnt {
+            let (owner, p) = read_name(msg, pos, &mut ptrs).ok()?;
+            let t = u16_at(msg, p).ok()?;
+            let ttl = u32_at(msg, p + 4).ok()?;
+            let rdlen = u16_at(msg, p + 8).ok()? as usize;
+            let rd = msg.get(p + 10..p + 10 + rdlen)?;
+            let crd = canon_rdata(msg, t, p + 10, rd)?;
+            pos = p + 10 + rdlen;
+            let k = (key(&owner), t);
+            match sets[s].iter_mut().find(|x| x.0 == k) {
+                Some(e) => {
+                    e.1.push(crd);
+                    e.2 = e.2.max(ttl);
+                }
+                None => sets[s].push((k, vec![crd], ttl)),
+            }
+        }
+    }
+    Some(Parsed { rcode, qname, qtype, sets })
+}
+
+impl Hier {
+    /// Is the RRset (owner key, type, RDATAs) authentic data of a SECURE zone of the hierarchy
+    /// (exactly, or as the synthesis of the right wildcard)?
+    fn authentic(&self, ownerk: &Labels, t: u16, rds: &[Vec<u8>]) -> bool {
+        let mut got: Vec<Vec<u8>> = rds.to_vec();
+        got.sort();
+        got.dedup();
+        for z in &self.zones {
+            if !z.secure {
+                continue;
+            }
+            if let Some((_, have)) = z.sets.get(&(ownerk.clone(), t)) {
+                if t == T_NS && ownerk != &key(&z.apex) {
+                    continue; // delegation NS is not authoritative data
+                }
+                if *have == got {
+                    return true;
+                }
+            }
+        }
+        let owner = unkey(ownerk);
+        if let Truth::Pos { zone, src, wildcard: true, .. } = self.classify(&owner, t) {
+            let z = &self.zones[zone];
+            if z.secure {
+                if let Some((_, have)) = z.sets.get(&(src, t)) {
+                    return *have == got;
+                }
+            }
+        }
+        false
+    }
+}
+
+#[derive(Debug)]
+struct Finding {
+    sig: String,
+    what: String,
+}
+
+/// The Secure => authentic part of the oracle.
+fn check_secure(h: &Hier, out: &[u8], kinds: &str) -> Vec<Finding> {
+    let mut f = vec![];
+    let Some(p) = parse_lenient(out) else {
+        f.push(Finding { sig: format!("C14|validator|secure-but-sections-unreadable|fault={kinds}"), what: "Secure reported for a message whose answer/authority sections cannot be read as the header counts say".into() });
+        return f;
+    };
+    for s in 0..2 {
+        for ((ok, t), rds, _) in &p.sets[s] {
+            if *t == T_RRSIG {
+                continue;
+            }
+            if !h.authentic(ok, *t, rds) {
+                f.push(Finding {
+                    sig: format!("C14|validator|secure-with-unauthentic-rrset|fault={kinds}|rtype={}|section={}", tname(*t), ["answer", "authority"][s]),
+                    what: format!(
+                        "Secure reported although the {} section holds RRset {} {} ({} RR) that is not data of a secure zone of the authentic hierarchy",
+                        ["answer", "authority"][s],
+                        show(&unkey(ok)),
+                        tname(*t),
+                        rds.len()
+                    ),
+                });
+            }
+        }
+    }
+    // the claim
+    let mut sname = p.qname.clone();
+    for _ in 0..12 {
+        if p.qtype == T_CNAME {
+            break;
+        }
+        let k = (key(&sname), T_CNAME);
+        match p.sets[0].iter().find(|x| x.0 == k) {
+            Some(e) if e.1.len() == 1 => sname = name_in_rdata(&e.1[0], 0),
+            _ => break,
+        }
+    }
+    let has_answer = p.sets[0].iter().any(|x| x.0 == (key(&sname), p.qtype));
+    let truth = h.classify(&sname, p.qtype);
+    if !h.zones[truth.zone()].secure {
+        f.push(Finding { sig: format!("C14|validator|secure-below-insecure-delegation|fault={kinds}"), what: format!("Secure reported for {} {} which lies in a zone without a secure delegation", show(&sname), tname(p.qtype)) });
+        return f;
+    }
+    if p.rcode == 0 && !has_answer {
+        if matches!(truth, Truth::Pos { .. } | Truth::Cname { .. }) {
+            f.push(Finding {
+                sig: format!("C14|validator|secure-false-negative-claim|fault={kinds}|claim=nodata|truth={}", truth.short()),
+                what: format!("Secure reported for a NODATA response for {} {} although the authentic zone has {}", show(&sname), tname(p.qtype), truth.short()),
+            });
+        }
+    } else if p.rcode == 3 && !matches!(truth, Truth::NxDomain { .. }) {
+        f.push(Finding {
+            sig: format!("C14|validator|secure-false-negative-claim|fault={kinds}|claim=nxdomain|truth={}", truth.short()),
+            what: format!("Secure reported for an NXDOMAIN response for {} {} although the authentic zone has {}", show(&sname), tname(p.qtype), truth.short()),
+        });
+    }
+    f
+}
+
+/// What an unmodified answer must be reported as.
+fn expected_unmodified(h: &Hier, q: &Query) -> Vec<&'static str> {
+    let mut name = q.name.clone();
+    let mut any_insecure = false;
+    for _ in 0..8 {
+        let t = h.classify(&name, q.qtype);
+        if !h.zones[t.zone()].secure {
+            any_insecure = true;
+        }
+        match t {
+            Truth::Cname { target, .. } => name = target,
+            Truth::NoData { zone, .. } if h.opt_out && zone == 1 && q.qtype == T_DS && h.kind == Kind::InsecureChild && name == nm("zone.tld.") => {
+                // opt-out span: RFC 5155 9.2 says insecure; the property text does not decide
+                return vec!["Insecure", "Secure"];
+            }
+            _ => break,
+        }
+    }
+    if any_insecure {
+        vec!["Insecure"]
+    } else {
+        vec!["Secure"]
+    }
+}
+
+fn apply_op(_h: &Hier, _op: &Op, _r: &mut Resp, _main: bool) {}
+
+fn main() {
+    let ctx = Ctx::new("C14", "fault_enumeration");
+    let now = std::time::SystemTime::now().duration_since(std::time::UNIX_EPOCH).unwrap().as_secs() as u32;
+    let h = Arc::new(build_hier("S1-nsec-secure", Kind::Secure, false, false, now));
+    let h2 = Arc::new(build_hier("S2-nsec3-secure", Kind::Secure, true, false, now));
+    let h3 = Arc::new(build_hier("S3-nsec-insecure-child", Kind::InsecureChild, false, false, now));
+    let h4 = Arc::new(build_hier("S3b-nsec3-insecure-child", Kind::InsecureChild, true, false, now));
+    let h5 = Arc::new(build_hier("S5-nsec3-optout-insecure-child", Kind::InsecureChild, true, true, now));
+    let qs = [
+        ("www.zone.tld.", T_A), ("x.w.zone.tld.", T_A), ("www.zone.tld.", T_TXT), ("nx.zone.tld.", T_A), ("zone.tld.", T_DS), ("www.tld.", T_A),
+        ("b.zone.tld.", T_A), ("cn.zone.tld.", T_A), ("ext.zone.tld.", T_A), ("x.w.zone.tld.", T_MX), ("nx.tld.", T_A), ("tld.", T_DS),
+        ("zone.tld.", T_DNSKEY), ("zone.tld.", T_SOA), ("deep.nx.zone.tld.", T_A), ("explicit.w.zone.tld.", T_A), ("y.x.w.zone.tld.", T_A),
+    ];
+    for h in [&h, &h2, &h3, &h4, &h5] {
+        for (n, t) in qs {
+            let q = Query { name: nm(n), qtype: t };
+            let ex = run_direct(h, &q, &Arc::new(vec![]));
+            let ex2 = run_conn(h, &q, &Arc::new(vec![]));
+            println!("{} {} {}: {:?} ede={} calls={} asked={:?} expect={:?} conn={:?}", h.name, n, tname(t), ex.verdict, ex.ede, ex.calls, ex.asked.iter().map(|(a, b)| format!("{} {}", show(a), tname(*b))).collect::<Vec<_>>(), expected_unmodified(h, &q), ex2.verdict);
+            if ex.verdict.secure() {
+                println!("   findings: {:?}", check_secure(h, &ex.out, "none"));
+            }
+        }
+    }
+    let _ = (&ctx, Duration::from_secs(1), json!(null) as Value);
+}
+// @@NEXT@@
